@@ -92,7 +92,8 @@ class AbstractTypeResolver:
                 if id_func(obj):
                     enum_type = data_type
                     break
-            if obj_type not in self.cache_blocklist:
+            # Subclasses of blocklisted types are just as ambiguous.
+            if not issubclass(obj_type, tuple(self.cache_blocklist)):
                 self.type_map[obj_type] = enum_type
 
         return enum_type
